@@ -1154,6 +1154,29 @@ impl World {
                         self.violate("C03", "a session is created or re-keyed only by a handshake answering an outstanding WHOAREYOU (or by answering a WHOAREYOU for an in-flight request)", "unsolicited-rekey", format!("node {i}: new key material {} for {peer} after {:?}", hex::encode(&enc[..4]), ev));
                     }
                 }
+                // a handshake datagram that answers no outstanding challenge changes nothing: in
+                // particular it does not bring retained previous keys back as the current ones
+                // (only a *message* under the previous keys does that, by design)
+                if let (Some(p), Some(q)) = (&pre[i], &post[i]) {
+                    for (to, kind, src, claimed, _) in self.delivered_now.clone() {
+                        if to != i || kind != 2 {
+                            continue;
+                        }
+                        let challenged = p.challenges.iter().any(|c| c.addr.socket_addr == src && Some(c.addr.node_id) == claimed);
+                        let only_handshakes = self.delivered_now.iter().filter(|d| d.0 == i && d.2 == src).all(|d| d.1 == 2);
+                        if challenged || !only_handshakes {
+                            continue;
+                        }
+                        let cur = |s: &HandlerSnapshot| s.sessions.iter().find(|x| x.addr.socket_addr == src).map(|x| (x.encryption_key, x.decryption_key));
+                        if let (Some(b), Some(a)) = (cur(p), cur(q)) {
+                            if a != b {
+                                self.violate("C03", "replaying the same or an earlier handshake never creates or re-keys a session", "unchallenged-handshake-rekeyed", format!("node {i}: the current keys of its session with {src} changed from {} to {} in a step that only delivered a handshake datagram answering no outstanding WHOAREYOU ({:?})", hex::encode(&b.0[..4]), hex::encode(&a.0[..4]), ev));
+                            } else {
+                                self.count("unchallenged_handshakes_ignored");
+                            }
+                        }
+                    }
+                }
                 // a consumed challenge must be gone
                 for (to, kind, src, claimed, _) in self.delivered_now.clone() {
                     if to == i && kind == 2 && !after.is_subset(&before) {
